@@ -12,9 +12,12 @@ import (
 	"os"
 	"sort"
 	"strings"
+	"sync"
 )
 
 var debugHoudini = os.Getenv("GOVC_DEBUG") != ""
+var hqSeq int
+var hqMu sync.Mutex
 
 type cand struct {
 	name string
@@ -1241,7 +1244,12 @@ func (fx *FuncCtx) proveAll(hyps []Term, goals []Term, timeoutMs int, slow ...[]
 		if goals[i].S != "true" {
 			q = fx.buildQuery(hyps, goals[i])
 			if debugHoudini {
-				os.WriteFile(fmt.Sprintf("/tmp/hq-%d.smt2", i), []byte(q+"(check-sat)\n"), 0o644)
+				hqMu.Lock()
+				hqSeq++
+				n := hqSeq
+				hqMu.Unlock()
+				os.WriteFile(fmt.Sprintf("/tmp/hq-%d.smt2", n), []byte(q+"(check-sat)\n"), 0o644)
+				fmt.Printf("  [hq-%d] %s\n", n, firstLine(goals[i].S))
 			}
 		}
 		go func() {
